@@ -1,10 +1,1777 @@
-//! C10 probe skeleton (replaced below by the full harness).
+//! C10 — the frontend never panics on any query text.
+//!
+//! Requests (group `frontend`, Lean driver `drv_frontend`):
+//!   `(parse-doc <doc>)`      outcome class of `graphql_query::query::parse_document` on the abstract
+//!                            document: `panic` | `ok` | `(err <ParseErrorVariant>)`
+//!   `(text-nopanic <hex>)`   byte-level exploration of the unmodelled text parser: both sides answer
+//!                            `nopanic`; panics are found by the oracle
+//! The abstract document is sent to the model as an s-expression; the implementation is run on the
+//! `ExecutableDocument` built *directly* from it, and (oracle) on the document's rendered GraphQL text
+//! through `async_graphql_parser::parse_query` + `frontend::parse`.
+use std::collections::{BTreeMap, HashMap};
+
+use async_graphql_parser::types as gt;
+use async_graphql_parser::{Pos, Positioned};
+use async_graphql_value::{Name, Value as GV};
+
 use tfharness::framework::*;
+use tfharness::rng::Rng;
+use tfharness::sexp::{Sexp, hex, unhex};
+use trustfall_core::frontend::error::FrontendError;
+use trustfall_core::graphql_query::error::ParseError;
 use trustfall_core::schema::Schema;
+
+// ------------------------------------------------------------------------------------------------
+// abstract document (mirror of lean/TrustfallModel/Model/QueryParse.lean)
+
+#[derive(Clone, Debug, PartialEq)]
+pub enum GVal {
+    Var(String),
+    Null,
+    /// integer literal in [-2^63, 2^64)
+    Int(i128),
+    /// any other number literal, by its text
+    Float(String),
+    Str(String),
+    Bool(bool),
+    Enum(String),
+    List(Vec<GVal>),
+    Object(Vec<(String, GVal)>),
+}
+
+#[derive(Clone, Debug, PartialEq)]
+pub struct Arg {
+    pub name: String,
+    pub value: GVal,
+}
+
+#[derive(Clone, Debug, PartialEq)]
+pub struct Dir {
+    pub name: String,
+    pub args: Vec<Arg>,
+}
+
+#[derive(Clone, Debug, PartialEq)]
+pub struct FieldSel {
+    pub alias: Option<String>,
+    pub name: String,
+    pub args: Vec<Arg>,
+    pub dirs: Vec<Dir>,
+    pub sels: Vec<Sel>,
+}
+
+#[derive(Clone, Debug, PartialEq)]
+pub enum Sel {
+    Field(FieldSel),
+    Spread { name: String, dirs: Vec<Dir> },
+    Inline { tc: Option<String>, dirs: Vec<Dir>, sels: Vec<Sel> },
+}
+
+#[derive(Clone, Debug, PartialEq)]
+pub struct Op {
+    /// 'q' | 'm' | 's'
+    pub kind: char,
+    pub nvars: usize,
+    pub dirs: Vec<Dir>,
+    pub sels: Vec<Sel>,
+}
+
+#[derive(Clone, Debug, PartialEq)]
+pub struct Frag {
+    pub name: String,
+    pub tc: String,
+    pub dirs: Vec<Dir>,
+    pub sels: Vec<Sel>,
+}
+
+#[derive(Clone, Debug, PartialEq)]
+pub enum Ops {
+    Single(Op),
+    Multi(Vec<(String, Op)>),
+}
+
+#[derive(Clone, Debug, PartialEq)]
+pub struct Doc {
+    pub ops: Ops,
+    pub frags: Vec<Frag>,
+}
+
+fn d(name: &str, args: Vec<(&str, GVal)>) -> Dir {
+    Dir { name: name.into(), args: args.into_iter().map(|(n, v)| Arg { name: n.into(), value: v }).collect() }
+}
+fn s(x: &str) -> GVal {
+    GVal::Str(x.into())
+}
+
+// ---- s-expression encoding
+
+fn hx(s: &str) -> Sexp {
+    Sexp::atom(hex(s.as_bytes()))
+}
+fn opt_hx(s: &Option<String>) -> Sexp {
+    match s {
+        None => Sexp::atom("~"),
+        Some(x) => hx(x),
+    }
+}
+
+fn val_to_sexp(v: &GVal) -> Sexp {
+    match v {
+        GVal::Var(n) => Sexp::call("v", vec![hx(n)]),
+        GVal::Null => Sexp::atom("n"),
+        GVal::Int(i) => Sexp::call("i", vec![Sexp::atom(i.to_string())]),
+        GVal::Float(t) => Sexp::call("fl", vec![hx(t)]),
+        GVal::Str(x) => Sexp::call("s", vec![hx(x)]),
+        GVal::Bool(b) => Sexp::call("b", vec![Sexp::atom(if *b { "1" } else { "0" })]),
+        GVal::Enum(n) => Sexp::call("e", vec![hx(n)]),
+        GVal::List(l) => Sexp::call("l", l.iter().map(val_to_sexp).collect()),
+        GVal::Object(kv) => Sexp::call("o", kv.iter().map(|(k, v)| Sexp::list(vec![hx(k), val_to_sexp(v)])).collect()),
+    }
+}
+fn args_to_sexp(a: &[Arg]) -> Sexp {
+    Sexp::list(a.iter().map(|a| Sexp::list(vec![hx(&a.name), val_to_sexp(&a.value)])).collect())
+}
+fn dirs_to_sexp(ds: &[Dir]) -> Sexp {
+    Sexp::list(ds.iter().map(|d| Sexp::list(vec![Sexp::atom("d"), hx(&d.name), args_to_sexp(&d.args)])).collect())
+}
+fn sels_to_sexp(ss: &[Sel]) -> Sexp {
+    Sexp::list(ss.iter().map(sel_to_sexp).collect())
+}
+fn sel_to_sexp(s: &Sel) -> Sexp {
+    match s {
+        Sel::Field(f) => Sexp::list(vec![
+            Sexp::atom("f"),
+            opt_hx(&f.alias),
+            hx(&f.name),
+            args_to_sexp(&f.args),
+            dirs_to_sexp(&f.dirs),
+            sels_to_sexp(&f.sels),
+        ]),
+        Sel::Spread { name, dirs } => Sexp::list(vec![Sexp::atom("sp"), hx(name), dirs_to_sexp(dirs)]),
+        Sel::Inline { tc, dirs, sels } => Sexp::list(vec![Sexp::atom("in"), opt_hx(tc), dirs_to_sexp(dirs), sels_to_sexp(sels)]),
+    }
+}
+fn op_to_sexp(o: &Op) -> Sexp {
+    Sexp::list(vec![
+        Sexp::atom("op"),
+        Sexp::atom(o.kind.to_string()),
+        Sexp::atom(o.nvars.to_string()),
+        dirs_to_sexp(&o.dirs),
+        sels_to_sexp(&o.sels),
+    ])
+}
+pub fn doc_to_sexp(doc: &Doc) -> Sexp {
+    let ops = match &doc.ops {
+        Ops::Single(o) => Sexp::call("single", vec![op_to_sexp(o)]),
+        Ops::Multi(m) => Sexp::call("multi", m.iter().map(|(n, o)| Sexp::list(vec![hx(n), op_to_sexp(o)])).collect()),
+    };
+    let frags = Sexp::list(
+        doc.frags
+            .iter()
+            .map(|f| Sexp::list(vec![Sexp::atom("frag"), hx(&f.name), hx(&f.tc), dirs_to_sexp(&f.dirs), sels_to_sexp(&f.sels)]))
+            .collect(),
+    );
+    Sexp::call("doc", vec![ops, frags])
+}
+
+fn un(s: &Sexp) -> Option<String> {
+    String::from_utf8(unhex(s.as_atom()?)?).ok()
+}
+fn opt_un(s: &Sexp) -> Option<Option<String>> {
+    if s.as_atom()? == "~" { Some(None) } else { Some(Some(un(s)?)) }
+}
+fn sexp_to_val(s: &Sexp) -> Option<GVal> {
+    if s.as_atom() == Some("n") {
+        return Some(GVal::Null);
+    }
+    let (h, a) = s.as_call()?;
+    Some(match (h, a) {
+        ("v", [x]) => GVal::Var(un(x)?),
+        ("i", [x]) => GVal::Int(x.as_atom()?.parse().ok()?),
+        ("fl", [x]) => GVal::Float(un(x)?),
+        ("s", [x]) => GVal::Str(un(x)?),
+        ("b", [x]) => GVal::Bool(x.as_atom()? == "1"),
+        ("e", [x]) => GVal::Enum(un(x)?),
+        ("l", xs) => GVal::List(xs.iter().map(sexp_to_val).collect::<Option<_>>()?),
+        ("o", kvs) => GVal::Object(
+            kvs.iter()
+                .map(|kv| {
+                    let l = kv.as_list()?;
+                    if l.len() != 2 {
+                        return None;
+                    }
+                    Some((un(&l[0])?, sexp_to_val(&l[1])?))
+                })
+                .collect::<Option<_>>()?,
+        ),
+        _ => return None,
+    })
+}
+fn sexp_to_args(s: &Sexp) -> Option<Vec<Arg>> {
+    s.as_list()?
+        .iter()
+        .map(|a| {
+            let l = a.as_list()?;
+            if l.len() != 2 {
+                return None;
+            }
+            Some(Arg { name: un(&l[0])?, value: sexp_to_val(&l[1])? })
+        })
+        .collect()
+}
+fn sexp_to_dirs(s: &Sexp) -> Option<Vec<Dir>> {
+    s.as_list()?
+        .iter()
+        .map(|x| {
+            let l = x.as_list()?;
+            if l.len() != 3 || l[0].as_atom()? != "d" {
+                return None;
+            }
+            Some(Dir { name: un(&l[1])?, args: sexp_to_args(&l[2])? })
+        })
+        .collect()
+}
+fn sexp_to_sels(s: &Sexp) -> Option<Vec<Sel>> {
+    s.as_list()?.iter().map(sexp_to_sel).collect()
+}
+fn sexp_to_sel(s: &Sexp) -> Option<Sel> {
+    let (h, a) = s.as_call()?;
+    Some(match (h, a) {
+        ("f", [alias, name, args, dirs, sels]) => Sel::Field(FieldSel {
+            alias: opt_un(alias)?,
+            name: un(name)?,
+            args: sexp_to_args(args)?,
+            dirs: sexp_to_dirs(dirs)?,
+            sels: sexp_to_sels(sels)?,
+        }),
+        ("sp", [name, dirs]) => Sel::Spread { name: un(name)?, dirs: sexp_to_dirs(dirs)? },
+        ("in", [tc, dirs, sels]) => Sel::Inline { tc: opt_un(tc)?, dirs: sexp_to_dirs(dirs)?, sels: sexp_to_sels(sels)? },
+        _ => return None,
+    })
+}
+fn sexp_to_op(s: &Sexp) -> Option<Op> {
+    let (h, a) = s.as_call()?;
+    match (h, a) {
+        ("op", [k, nv, dirs, sels]) => Some(Op {
+            kind: k.as_atom()?.chars().next()?,
+            nvars: nv.as_atom()?.parse().ok()?,
+            dirs: sexp_to_dirs(dirs)?,
+            sels: sexp_to_sels(sels)?,
+        }),
+        _ => None,
+    }
+}
+pub fn sexp_to_doc(s: &Sexp) -> Option<Doc> {
+    let (h, a) = s.as_call()?;
+    let ("doc", [ops, frags]) = (h, a) else { return None };
+    let (oh, oa) = ops.as_call()?;
+    let ops = match (oh, oa) {
+        ("single", [o]) => Ops::Single(sexp_to_op(o)?),
+        ("multi", xs) => Ops::Multi(
+            xs.iter()
+                .map(|x| {
+                    let l = x.as_list()?;
+                    if l.len() != 2 {
+                        return None;
+                    }
+                    Some((un(&l[0])?, sexp_to_op(&l[1])?))
+                })
+                .collect::<Option<_>>()?,
+        ),
+        _ => return None,
+    };
+    let frags = frags
+        .as_list()?
+        .iter()
+        .map(|f| {
+            let (h, a) = f.as_call()?;
+            let ("frag", [n, tc, dirs, sels]) = (h, a) else { return None };
+            Some(Frag { name: un(n)?, tc: un(tc)?, dirs: sexp_to_dirs(dirs)?, sels: sexp_to_sels(sels)? })
+        })
+        .collect::<Option<_>>()?;
+    Some(Doc { ops, frags })
+}
+
+// ---- direct construction of the parser's AST
+
+fn p<T>(x: T) -> Positioned<T> {
+    Positioned::new(x, Pos::default())
+}
+fn number_of_text(t: &str) -> serde_json::Number {
+    // exactly what the text parser does with a number token
+    t.parse::<serde_json::Number>().unwrap_or_else(|_| serde_json::Number::from(0))
+}
+fn val_to_ast(v: &GVal) -> GV {
+    match v {
+        GVal::Var(n) => GV::Variable(Name::new(n)),
+        GVal::Null => GV::Null,
+        GVal::Int(i) => {
+            if *i < 0 {
+                GV::Number(serde_json::Number::from(*i as i64))
+            } else {
+                GV::Number(serde_json::Number::from(*i as u64))
+            }
+        }
+        GVal::Float(t) => GV::Number(number_of_text(t)),
+        GVal::Str(x) => GV::String(x.clone()),
+        GVal::Bool(b) => GV::Boolean(*b),
+        GVal::Enum(n) => GV::Enum(Name::new(n)),
+        GVal::List(l) => GV::List(l.iter().map(val_to_ast).collect()),
+        GVal::Object(kv) => GV::Object(kv.iter().map(|(k, v)| (Name::new(k), val_to_ast(v))).collect()),
+    }
+}
+fn dirs_to_ast(ds: &[Dir]) -> Vec<Positioned<gt::Directive>> {
+    ds.iter()
+        .map(|d| {
+            p(gt::Directive {
+                name: p(Name::new(&d.name)),
+                arguments: d.args.iter().map(|a| (p(Name::new(&a.name)), p(val_to_ast(&a.value)))).collect(),
+            })
+        })
+        .collect()
+}
+fn sels_to_ast(ss: &[Sel]) -> Positioned<gt::SelectionSet> {
+    p(gt::SelectionSet { items: ss.iter().map(|s| p(sel_to_ast(s))).collect() })
+}
+fn sel_to_ast(s: &Sel) -> gt::Selection {
+    match s {
+        Sel::Field(f) => gt::Selection::Field(p(gt::Field {
+            alias: f.alias.as_ref().map(|a| p(Name::new(a))),
+            name: p(Name::new(&f.name)),
+            arguments: f.args.iter().map(|a| (p(Name::new(&a.name)), p(val_to_ast(&a.value)))).collect(),
+            directives: dirs_to_ast(&f.dirs),
+            selection_set: sels_to_ast(&f.sels),
+        })),
+        Sel::Spread { name, dirs } => {
+            gt::Selection::FragmentSpread(p(gt::FragmentSpread { fragment_name: p(Name::new(name)), directives: dirs_to_ast(dirs) }))
+        }
+        Sel::Inline { tc, dirs, sels } => gt::Selection::InlineFragment(p(gt::InlineFragment {
+            type_condition: tc.as_ref().map(|t| p(gt::TypeCondition { on: p(Name::new(t)) })),
+            directives: dirs_to_ast(dirs),
+            selection_set: sels_to_ast(sels),
+        })),
+    }
+}
+fn op_to_ast(o: &Op) -> Positioned<gt::OperationDefinition> {
+    p(gt::OperationDefinition {
+        ty: match o.kind {
+            'm' => gt::OperationType::Mutation,
+            's' => gt::OperationType::Subscription,
+            _ => gt::OperationType::Query,
+        },
+        variable_definitions: (0..o.nvars)
+            .map(|i| {
+                p(gt::VariableDefinition {
+                    name: p(Name::new(format!("v{i}"))),
+                    var_type: p(gt::Type::new("Int").unwrap()),
+                    directives: vec![],
+                    default_value: None,
+                })
+            })
+            .collect(),
+        directives: dirs_to_ast(&o.dirs),
+        selection_set: sels_to_ast(&o.sels),
+    })
+}
+pub fn doc_to_ast(doc: &Doc) -> gt::ExecutableDocument {
+    let operations = match &doc.ops {
+        Ops::Single(o) => gt::DocumentOperations::Single(op_to_ast(o)),
+        Ops::Multi(m) => gt::DocumentOperations::Multiple(m.iter().map(|(n, o)| (Name::new(n), op_to_ast(o))).collect()),
+    };
+    let fragments: HashMap<Name, Positioned<gt::FragmentDefinition>> = doc
+        .frags
+        .iter()
+        .map(|f| {
+            (
+                Name::new(&f.name),
+                p(gt::FragmentDefinition {
+                    type_condition: p(gt::TypeCondition { on: p(Name::new(&f.tc)) }),
+                    directives: dirs_to_ast(&f.dirs),
+                    selection_set: sels_to_ast(&f.sels),
+                }),
+            )
+        })
+        .collect();
+    gt::ExecutableDocument { operations, fragments }
+}
+
+// ---- rendering as GraphQL text (None: this abstract document is not the image of any text)
+
+fn is_name(s: &str) -> bool {
+    let mut cs = s.chars();
+    match cs.next() {
+        Some(c) if c.is_ascii_alphabetic() || c == '_' => {}
+        _ => return false,
+    }
+    cs.all(|c| c.is_ascii_alphanumeric() || c == '_')
+}
+fn is_number_text(t: &str) -> bool {
+    // GraphQL `number` token: -?(0|[1-9][0-9]*)(\.[0-9]+)?([eE][+-]?[0-9]+)?  and accepted by serde_json
+    let b = t.as_bytes();
+    let mut i = 0;
+    if i < b.len() && b[i] == b'-' {
+        i += 1;
+    }
+    if i >= b.len() {
+        return false;
+    }
+    if b[i] == b'0' {
+        i += 1;
+    } else if b[i].is_ascii_digit() {
+        while i < b.len() && b[i].is_ascii_digit() {
+            i += 1;
+        }
+    } else {
+        return false;
+    }
+    if i < b.len() && b[i] == b'.' {
+        i += 1;
+        let st = i;
+        while i < b.len() && b[i].is_ascii_digit() {
+            i += 1;
+        }
+        if i == st {
+            return false;
+        }
+    }
+    if i < b.len() && (b[i] == b'e' || b[i] == b'E') {
+        i += 1;
+        if i < b.len() && (b[i] == b'+' || b[i] == b'-') {
+            i += 1;
+        }
+        let st = i;
+        while i < b.len() && b[i].is_ascii_digit() {
+            i += 1;
+        }
+        if i == st {
+            return false;
+        }
+    }
+    i == b.len() && t.parse::<serde_json::Number>().is_ok()
+}
+/// the float literal must not be an in-range integer (that is `GVal::Int`'s job)
+fn float_text_ok(t: &str) -> bool {
+    if !is_number_text(t) {
+        return false;
+    }
+    let n = t.parse::<serde_json::Number>().unwrap();
+    n.as_i64().is_none() && n.as_u64().is_none()
+}
+fn render_str(x: &str, out: &mut String) {
+    out.push('"');
+    for c in x.chars() {
+        match c {
+            '"' => out.push_str("\\\""),
+            '\\' => out.push_str("\\\\"),
+            '\n' => out.push_str("\\n"),
+            '\r' => out.push_str("\\r"),
+            '\t' => out.push_str("\\t"),
+            c if (c as u32) < 0x20 => out.push_str(&format!("\\u{:04x}", c as u32)),
+            c => out.push(c),
+        }
+    }
+    out.push('"');
+}
+fn render_val(v: &GVal, out: &mut String) -> Option<()> {
+    match v {
+        GVal::Var(n) => {
+            if !is_name(n) {
+                return None;
+            }
+            out.push('$');
+            out.push_str(n);
+        }
+        GVal::Null => out.push_str("null"),
+        GVal::Int(i) => {
+            if *i < -(1i128 << 63) || *i >= (1i128 << 64) {
+                return None;
+            }
+            out.push_str(&i.to_string());
+        }
+        GVal::Float(t) => {
+            if !float_text_ok(t) {
+                return None;
+            }
+            out.push_str(t);
+        }
+        GVal::Str(x) => render_str(x, out),
+        GVal::Bool(b) => out.push_str(if *b { "true" } else { "false" }),
+        GVal::Enum(n) => {
+            if !is_name(n) || matches!(n.as_str(), "true" | "false" | "null") {
+                return None;
+            }
+            out.push_str(n);
+        }
+        GVal::List(l) => {
+            out.push('[');
+            for (i, x) in l.iter().enumerate() {
+                if i > 0 {
+                    out.push_str(", ");
+                }
+                render_val(x, out)?;
+            }
+            out.push(']');
+        }
+        GVal::Object(kv) => {
+            // IndexMap keys are unique
+            let mut seen = std::collections::BTreeSet::new();
+            out.push('{');
+            for (i, (k, x)) in kv.iter().enumerate() {
+                if !is_name(k) || !seen.insert(k.clone()) {
+                    return None;
+                }
+                if i > 0 {
+                    out.push_str(", ");
+                }
+                out.push_str(k);
+                out.push_str(": ");
+                render_val(x, out)?;
+            }
+            out.push('}');
+        }
+    }
+    Some(())
+}
+fn render_args(a: &[Arg], out: &mut String) -> Option<()> {
+    if a.is_empty() {
+        return Some(());
+    }
+    out.push('(');
+    for (i, x) in a.iter().enumerate() {
+        if !is_name(&x.name) {
+            return None;
+        }
+        if i > 0 {
+            out.push_str(", ");
+        }
+        out.push_str(&x.name);
+        out.push_str(": ");
+        render_val(&x.value, out)?;
+    }
+    out.push(')');
+    Some(())
+}
+fn render_dirs(ds: &[Dir], out: &mut String) -> Option<()> {
+    for d in ds {
+        if !is_name(&d.name) {
+            return None;
+        }
+        out.push_str(" @");
+        out.push_str(&d.name);
+        render_args(&d.args, out)?;
+    }
+    Some(())
+}
+fn render_sels(ss: &[Sel], out: &mut String, depth: usize) -> Option<()> {
+    if ss.is_empty() || depth > 60 {
+        return None;
+    }
+    out.push_str(" {");
+    for s in ss {
+        out.push(' ');
+        match s {
+            Sel::Field(f) => {
+                if let Some(a) = &f.alias {
+                    if !is_name(a) {
+                        return None;
+                    }
+                    out.push_str(a);
+                    out.push_str(": ");
+                }
+                if !is_name(&f.name) {
+                    return None;
+                }
+                out.push_str(&f.name);
+                render_args(&f.args, out)?;
+                render_dirs(&f.dirs, out)?;
+                if !f.sels.is_empty() {
+                    render_sels(&f.sels, out, depth + 1)?;
+                }
+            }
+            Sel::Spread { name, dirs } => {
+                if !is_name(name) || name == "on" {
+                    return None;
+                }
+                out.push_str("...");
+                out.push_str(name);
+                render_dirs(dirs, out)?;
+            }
+            Sel::Inline { tc, dirs, sels } => {
+                out.push_str("...");
+                if let Some(t) = tc {
+                    if !is_name(t) {
+                        return None;
+                    }
+                    out.push_str(" on ");
+                    out.push_str(t);
+                }
+                render_dirs(dirs, out)?;
+                render_sels(sels, out, depth + 1)?;
+            }
+        }
+    }
+    out.push_str(" }");
+    Some(())
+}
+fn render_op(name: Option<&str>, o: &Op, out: &mut String) -> Option<()> {
+    let plain = name.is_none() && o.kind == 'q' && o.nvars == 0 && o.dirs.is_empty();
+    if !plain {
+        out.push_str(match o.kind {
+            'q' => "query",
+            'm' => "mutation",
+            's' => "subscription",
+            _ => return None,
+        });
+        if let Some(n) = name {
+            if !is_name(n) {
+                return None;
+            }
+            out.push(' ');
+            out.push_str(n);
+        }
+        if o.nvars > 0 {
+            out.push('(');
+            for i in 0..o.nvars {
+                if i > 0 {
+                    out.push_str(", ");
+                }
+                out.push_str(&format!("$v{i}: Int"));
+            }
+            out.push(')');
+        }
+        render_dirs(&o.dirs, out)?;
+    }
+    render_sels(&o.sels, out, 0)
+}
+pub fn render_doc(doc: &Doc) -> Option<String> {
+    let mut out = String::new();
+    match &doc.ops {
+        Ops::Single(o) => render_op(None, o, &mut out)?,
+        Ops::Multi(m) => {
+            if m.is_empty() {
+                return None;
+            }
+            let mut seen = std::collections::BTreeSet::new();
+            for (n, o) in m {
+                if !seen.insert(n.clone()) {
+                    return None;
+                }
+                render_op(Some(n), o, &mut out)?;
+                out.push('\n');
+            }
+        }
+    }
+    let mut seen = std::collections::BTreeSet::new();
+    for f in &doc.frags {
+        if !is_name(&f.name) || f.name == "on" || !is_name(&f.tc) || !seen.insert(f.name.clone()) {
+            return None;
+        }
+        out.push_str(&format!("\nfragment {} on {}", f.name, f.tc));
+        render_dirs(&f.dirs, &mut out)?;
+        render_sels(&f.sels, &mut out, 0)?;
+    }
+    Some(out)
+}
+
+/// Structural facts the text parser guarantees (Lean: `ParserProducible`): a `Multiple` map is not
+/// empty and every operation's selection set is not empty.
+pub fn producible(doc: &Doc) -> bool {
+    match &doc.ops {
+        Ops::Single(o) => !o.sels.is_empty(),
+        Ops::Multi(m) => !m.is_empty() && m.iter().all(|(_, o)| !o.sels.is_empty()),
+    }
+}
+
+/// Debug text of an `ExecutableDocument` with positions erased and hash maps sorted.
+fn normalized_debug(doc: &gt::ExecutableDocument) -> String {
+    fn strip(s: String) -> String {
+        let mut out = String::with_capacity(s.len());
+        let mut rest = s.as_str();
+        while let Some(i) = rest.find("Pos(") {
+            out.push_str(&rest[..i]);
+            out.push_str("Pos");
+            let tail = &rest[i..];
+            let j = tail.find(')').unwrap_or(tail.len() - 1);
+            rest = &tail[j + 1..];
+        }
+        out.push_str(rest);
+        out
+    }
+    let mut parts = vec![];
+    match &doc.operations {
+        gt::DocumentOperations::Single(o) => parts.push(format!("single {:?}", o)),
+        gt::DocumentOperations::Multiple(m) => {
+            let mut v: Vec<_> = m.iter().map(|(n, o)| format!("op {} {:?}", n, o)).collect();
+            v.sort();
+            parts.push("multi".to_string());
+            parts.extend(v);
+        }
+    }
+    let mut v: Vec<_> = doc.fragments.iter().map(|(n, f)| format!("frag {} {:?}", n, f)).collect();
+    v.sort();
+    parts.extend(v);
+    strip(parts.join("\n"))
+}
+
+// ------------------------------------------------------------------------------------------------
+// schemas
+
+const NUMBERS_SDL: &str = include_str!("/repo/trustfall_core/test_data/schemas/numbers.graphql");
+
+fn schema_sdl(id: &str) -> Option<&'static str> {
+    match id {
+        "numbers" => Some(NUMBERS_SDL),
+        _ => None,
+    }
+}
+
+thread_local! {
+    static SCHEMAS: std::cell::RefCell<BTreeMap<String, &'static Schema>> = const { std::cell::RefCell::new(BTreeMap::new()) };
+}
+fn schema(id: &str) -> Option<&'static Schema> {
+    SCHEMAS.with(|m| {
+        if let Some(s) = m.borrow().get(id) {
+            return Some(*s);
+        }
+        let sdl = schema_sdl(id)?;
+        let s: &'static Schema = Box::leak(Box::new(Schema::parse(sdl).expect("harness schema must be valid")));
+        m.borrow_mut().insert(id.to_string(), s);
+        Some(s)
+    })
+}
+
+/// What the generator knows about a schema (read off the SDL with the same external parser).
+#[derive(Clone, Debug)]
+pub struct TyRef {
+    pub base: String,
+    /// nullability per level, outermost first; `len() - 1` list levels
+    pub nullable: Vec<bool>,
+}
+#[derive(Clone, Debug)]
+pub struct ParamInfo {
+    pub name: String,
+    pub ty: TyRef,
+    pub has_default: bool,
+}
+#[derive(Clone, Debug)]
+pub struct FieldInfo {
+    pub name: String,
+    pub ty: TyRef,
+    pub params: Vec<ParamInfo>,
+}
+#[derive(Clone, Debug)]
+pub struct TypeInfo {
+    pub name: String,
+    pub is_interface: bool,
+    pub implements: Vec<String>,
+    pub fields: Vec<FieldInfo>,
+}
+#[derive(Clone, Debug)]
+pub struct SchemaInfo {
+    pub id: String,
+    pub query_type: String,
+    pub types: Vec<TypeInfo>,
+}
+
+fn tyref(t: &gt::Type) -> TyRef {
+    let mut nullable = vec![t.nullable];
+    let mut base = &t.base;
+    loop {
+        match base {
+            gt::BaseType::Named(n) => return TyRef { base: n.to_string(), nullable },
+            gt::BaseType::List(inner) => {
+                nullable.push(inner.nullable);
+                base = &inner.base;
+            }
+        }
+    }
+}
+
+impl SchemaInfo {
+    pub fn load(id: &str) -> SchemaInfo {
+        let doc = async_graphql_parser::parse_schema(schema_sdl(id).unwrap()).unwrap();
+        let mut query_type = String::new();
+        let mut types = vec![];
+        for def in doc.definitions {
+            match def {
+                gt::TypeSystemDefinition::Schema(s) => query_type = s.node.query.unwrap().node.to_string(),
+                gt::TypeSystemDefinition::Type(t) => {
+                    let (is_interface, implements, fields) = match &t.node.kind {
+                        gt::TypeKind::Object(o) => (false, &o.implements, &o.fields),
+                        gt::TypeKind::Interface(i) => (true, &i.implements, &i.fields),
+                        _ => continue,
+                    };
+                    types.push(TypeInfo {
+                        name: t.node.name.node.to_string(),
+                        is_interface,
+                        implements: implements.iter().map(|x| x.node.to_string()).collect(),
+                        fields: fields
+                            .iter()
+                            .map(|f| FieldInfo {
+                                name: f.node.name.node.to_string(),
+                                ty: tyref(&f.node.ty.node),
+                                params: f
+                                    .node
+                                    .arguments
+                                    .iter()
+                                    .map(|a| ParamInfo {
+                                        name: a.node.name.node.to_string(),
+                                        ty: tyref(&a.node.ty.node),
+                                        has_default: a.node.default_value.is_some(),
+                                    })
+                                    .collect(),
+                            })
+                            .collect(),
+                    });
+                }
+                _ => {}
+            }
+        }
+        SchemaInfo { id: id.to_string(), query_type, types }
+    }
+    fn ty(&self, name: &str) -> Option<&TypeInfo> {
+        self.types.iter().find(|t| t.name == name)
+    }
+    fn is_vertex(&self, name: &str) -> bool {
+        self.ty(name).is_some()
+    }
+    fn implementers(&self, name: &str) -> Vec<&str> {
+        self.types.iter().filter(|t| t.implements.iter().any(|i| i == name)).map(|t| t.name.as_str()).collect()
+    }
+}
+
+// ------------------------------------------------------------------------------------------------
+// generator: type-directed queries over a schema
+
+struct Gen<'a> {
+    rng: &'a mut Rng,
+    si: &'a SchemaInfo,
+    counter: usize,
+    /// tags defined so far (textual order): name
+    tags: Vec<String>,
+}
+
+const CMP_OPS: &[&str] = &["=", "!=", "<", "<=", ">", ">="];
+const STR_OPS: &[&str] =
+    &["has_prefix", "not_has_prefix", "has_suffix", "not_has_suffix", "has_substring", "not_has_substring", "regex", "not_regex"];
+
+impl<'a> Gen<'a> {
+    fn fresh(&mut self, prefix: &str) -> String {
+        self.counter += 1;
+        format!("{prefix}{}", self.counter)
+    }
+    fn value_for(&mut self, t: &TyRef, level: usize) -> GVal {
+        if t.nullable[level] && self.rng.chance(1, 6) {
+            return GVal::Null;
+        }
+        if level + 1 < t.nullable.len() {
+            let n = self.rng.below(3);
+            return GVal::List((0..n).map(|_| self.value_for(t, level + 1)).collect());
+        }
+        match t.base.as_str() {
+            "Int" => GVal::Int(*self.rng.pick(&[0i128, 1, 2, 3, 5, 10, -1, 100])),
+            "Float" => GVal::Float("1.5".into()),
+            "String" => GVal::Str((*self.rng.pick(&["a", "two", ""])).to_string()),
+            "Boolean" => GVal::Bool(self.rng.chance(1, 2)),
+            _ => GVal::Str("x".into()),
+        }
+    }
+    fn args_for(&mut self, f: &FieldInfo) -> Vec<Arg> {
+        let mut out = vec![];
+        for p in &f.params {
+            let optional = p.has_default || p.ty.nullable[0];
+            if optional && self.rng.chance(1, 2) {
+                continue;
+            }
+            out.push(Arg { name: p.name.clone(), value: self.value_for(&p.ty, 0) });
+        }
+        out
+    }
+    fn filter_for(&mut self, t: &TyRef) -> Dir {
+        let is_list = t.nullable.len() > 1;
+        let mut ops: Vec<&str> = vec!["=", "!=", "one_of", "not_one_of"];
+        if t.nullable[0] {
+            ops.extend(["is_null", "is_not_null"]);
+        }
+        if matches!(t.base.as_str(), "Int" | "Float" | "String") {
+            ops.extend(&CMP_OPS[2..]);
+        }
+        if is_list {
+            ops.extend(["contains", "not_contains"]);
+        } else if t.base == "String" {
+            ops.extend(STR_OPS);
+        }
+        // a few ill-typed ones too
+        if self.rng.chance(1, 12) {
+            ops = vec!["<", "contains", "has_prefix", "is_null", "one_of", "regex"];
+        }
+        let op = *self.rng.pick(&ops);
+        if op == "is_null" || op == "is_not_null" {
+            return d("filter", vec![("op", s(op))]);
+        }
+        let operand = if !self.tags.is_empty() && self.rng.chance(1, 3) {
+            format!("%{}", self.rng.pick(&self.tags).clone())
+        } else {
+            format!("${}", self.fresh("v"))
+        };
+        d("filter", vec![("op", s(op)), ("value", GVal::List(vec![s(&operand)]))])
+    }
+    fn property(&mut self, f: Option<&FieldInfo>) -> Sel {
+        let (name, ty) = match f {
+            Some(f) => (f.name.clone(), f.ty.clone()),
+            None => ("__typename".to_string(), TyRef { base: "String".into(), nullable: vec![false] }),
+        };
+        let mut dirs = vec![];
+        let alias = if self.rng.chance(1, 6) { Some(self.fresh("al")) } else { None };
+        let n = 1 + self.rng.below(2);
+        for _ in 0..n {
+            match self.rng.below(6) {
+                0 | 1 | 2 => {
+                    if self.rng.chance(1, 2) {
+                        let nm = self.fresh("o");
+                        dirs.push(d("output", vec![("name", s(&nm))]));
+                    } else if !dirs.iter().any(|x: &Dir| x.name == "output") {
+                        dirs.push(d("output", vec![]));
+                    }
+                }
+                3 => {
+                    let nm = self.fresh("t");
+                    dirs.push(d("tag", vec![("name", s(&nm))]));
+                    self.tags.push(nm);
+                }
+                _ => dirs.push(self.filter_for(&ty)),
+            }
+        }
+        Sel::Field(FieldSel { alias, name, args: vec![], dirs, sels: vec![] })
+    }
+    fn edge(&mut self, f: &FieldInfo, depth: usize) -> Sel {
+        let alias = if self.rng.chance(1, 5) { Some(self.fresh("e")) } else { None };
+        let args = self.args_for(f);
+        let mut dirs = vec![];
+        let saved_tags = self.tags.len();
+        let mut folded = false;
+        match self.rng.below(10) {
+            0 | 1 => dirs.push(d("optional", vec![])),
+            2 => dirs.push(d("recurse", vec![("depth", GVal::Int(1 + self.rng.below(3) as i128))])),
+            3 | 4 => {
+                dirs.push(d("fold", vec![]));
+                folded = true;
+            }
+            5 | 6 => {
+                folded = true;
+                dirs.push(d("fold", vec![]));
+                dirs.push(d("transform", vec![("op", s("count"))]));
+                let n = 1 + self.rng.below(2);
+                for _ in 0..n {
+                    match self.rng.below(4) {
+                        0 | 1 => {
+                            let nm = self.fresh("c");
+                            dirs.push(d("output", vec![("name", s(&nm))]));
+                        }
+                        2 => {
+                            let op = *self.rng.pick(CMP_OPS);
+                            let v = format!("${}", self.fresh("n"));
+                            dirs.push(d("filter", vec![("op", s(op)), ("value", GVal::List(vec![s(&v)]))]));
+                        }
+                        _ => {
+                            let nm = self.fresh("ct");
+                            dirs.push(d("tag", vec![("name", s(&nm))]));
+                            // usable by later siblings of the parent component
+                        }
+                    }
+                }
+            }
+            _ => {}
+        }
+        let sels = self.vertex(&f.ty.base, depth + 1);
+        if folded {
+            // tags defined inside a fold are not visible outside
+            self.tags.truncate(saved_tags);
+        }
+        Sel::Field(FieldSel { alias, name: f.name.clone(), args, dirs, sels })
+    }
+    fn vertex(&mut self, type_name: &str, depth: usize) -> Vec<Sel> {
+        let si = self.si;
+        let mut ty = si.ty(type_name).expect("vertex type");
+        let mut coerce: Option<String> = None;
+        if ty.is_interface && self.rng.chance(1, 4) {
+            let imps = si.implementers(type_name);
+            if !imps.is_empty() {
+                let c = *self.rng.pick(&imps);
+                coerce = Some(c.to_string());
+                ty = si.ty(c).unwrap();
+            }
+        }
+        let props: Vec<&FieldInfo> = ty.fields.iter().filter(|f| !si.is_vertex(&f.ty.base)).collect();
+        let edges: Vec<&FieldInfo> = ty.fields.iter().filter(|f| si.is_vertex(&f.ty.base)).collect();
+        let n = 1 + self.rng.below(3);
+        let mut sels = vec![];
+        for _ in 0..n {
+            let want_edge = depth < 3 && !edges.is_empty() && self.rng.chance(2, 5);
+            if want_edge {
+                let f = *self.rng.pick(&edges);
+                sels.push(self.edge(f, depth));
+            } else if props.is_empty() || self.rng.chance(1, 8) {
+                sels.push(self.property(None));
+            } else {
+                let f = *self.rng.pick(&props);
+                sels.push(self.property(Some(f)));
+            }
+        }
+        match coerce {
+            Some(c) => vec![Sel::Inline { tc: Some(c), dirs: vec![], sels }],
+            None => sels,
+        }
+    }
+    fn doc(&mut self) -> Doc {
+        let si = self.si;
+        let root = si.ty(&si.query_type).unwrap();
+        let f = self.rng.pick(&root.fields);
+        let args = self.args_for(f);
+        let sels = self.vertex(&f.ty.base, 0);
+        let root_sel = Sel::Field(FieldSel { alias: None, name: f.name.clone(), args, dirs: vec![], sels });
+        Doc { ops: Ops::Single(Op { kind: 'q', nvars: 0, dirs: vec![], sels: vec![root_sel] }), frags: vec![] }
+    }
+}
+
+pub fn gen_valid(rng: &mut Rng, si: &SchemaInfo) -> Doc {
+    let mut g = Gen { rng, si, counter: 0, tags: vec![] };
+    g.doc()
+}
+
+// ---- mutation stream
+
+fn count_fields(ss: &[Sel]) -> usize {
+    ss.iter()
+        .map(|s| match s {
+            Sel::Field(f) => 1 + count_fields(&f.sels),
+            Sel::Inline { sels, .. } => count_fields(sels),
+            Sel::Spread { .. } => 0,
+        })
+        .sum()
+}
+/// apply `f` to the `k`-th field (pre-order)
+fn with_field(ss: &mut [Sel], k: &mut usize, f: &mut dyn FnMut(&mut FieldSel)) -> bool {
+    for s in ss.iter_mut() {
+        match s {
+            Sel::Field(fs) => {
+                if *k == 0 {
+                    f(fs);
+                    return true;
+                }
+                *k -= 1;
+                if with_field(&mut fs.sels, k, f) {
+                    return true;
+                }
+            }
+            Sel::Inline { sels, .. } => {
+                if with_field(sels, k, f) {
+                    return true;
+                }
+            }
+            Sel::Spread { .. } => {}
+        }
+    }
+    false
+}
+fn root_sels(doc: &mut Doc) -> Option<&mut Vec<Sel>> {
+    match &mut doc.ops {
+        Ops::Single(o) => Some(&mut o.sels),
+        Ops::Multi(m) => m.first_mut().map(|x| &mut x.1.sels),
+    }
+}
+fn first_op(doc: &mut Doc) -> Option<&mut Op> {
+    match &mut doc.ops {
+        Ops::Single(o) => Some(o),
+        Ops::Multi(m) => m.first_mut().map(|x| &mut x.1),
+    }
+}
+
+fn weird_values(rng: &mut Rng) -> GVal {
+    match rng.below(16) {
+        0 => GVal::Null,
+        1 => GVal::Int(0),
+        2 => GVal::Int(-1),
+        3 => GVal::Int(1),
+        4 => GVal::Int((1i128 << 63) - 1),
+        5 => GVal::Int(1i128 << 63),
+        6 => GVal::Int((1i128 << 64) - 1),
+        7 => GVal::Float("18446744073709551616".into()),
+        8 => GVal::Float("1.0".into()),
+        9 => GVal::Float("-9223372036854775809".into()),
+        10 => GVal::Str("1".into()),
+        11 => GVal::Var("x".into()),
+        12 => GVal::Enum("FOO".into()),
+        13 => GVal::List(vec![]),
+        14 => GVal::List(vec![GVal::Int(1), s("$a")]),
+        _ => GVal::Object(vec![("a".into(), GVal::Int(1))]),
+    }
+}
+fn weird_strings(rng: &mut Rng) -> GVal {
+    let v = [
+        "", "$", "%", "$1a", "%a-b", "$a b", "x", "$_ok", "%_", "a.b", "ok_name", "é", "$é", "=", "count", "is_null", "<", "unknown_op",
+        "$a$", "%%a",
+    ];
+    GVal::Str((*rng.pick(&v)).to_string())
+}
+fn random_directive(rng: &mut Rng) -> Dir {
+    match rng.below(12) {
+        0 => d("optional", vec![]),
+        1 => d("fold", vec![]),
+        2 => d("transform", vec![("op", s("count"))]),
+        3 => d("output", vec![]),
+        4 => d("tag", vec![]),
+        5 => d("recurse", vec![("depth", weird_values(rng))]),
+        6 => d("filter", vec![("op", s("=")), ("value", GVal::List(vec![s("$mv")]))]),
+        7 => d("filter", vec![("op", s("is_not_null"))]),
+        8 => d("unknown", vec![]),
+        9 => d("output", vec![("name", weird_strings(rng))]),
+        10 => d("tag", vec![("name", weird_strings(rng))]),
+        _ => d("transform", vec![("op", weird_strings(rng))]),
+    }
+}
+
+/// One random mutation; returns a label for the histogram.
+fn mutate(rng: &mut Rng, doc: &mut Doc) -> &'static str {
+    let nf = root_sels(doc).map(|s| count_fields(s)).unwrap_or(0);
+    let pick_field = |rng: &mut Rng, doc: &mut Doc, f: &mut dyn FnMut(&mut FieldSel)| {
+        if nf == 0 {
+            return;
+        }
+        let mut k = rng.below(nf);
+        if let Some(ss) = root_sels(doc) {
+            with_field(ss, &mut k, f);
+        }
+    };
+    match rng.below(34) {
+        0 => {
+            let mut r = rng.fork();
+            pick_field(rng, doc, &mut |f| {
+                if !f.dirs.is_empty() {
+                    let i = r.below(f.dirs.len());
+                    f.dirs.remove(i);
+                }
+            });
+            "mut:drop-directive"
+        }
+        1 => {
+            let mut r = rng.fork();
+            pick_field(rng, doc, &mut |f| {
+                if !f.dirs.is_empty() {
+                    let i = r.below(f.dirs.len());
+                    let x = f.dirs[i].clone();
+                    f.dirs.insert(i, x);
+                }
+            });
+            "mut:dup-directive"
+        }
+        2 => {
+            let mut r = rng.fork();
+            pick_field(rng, doc, &mut |f| {
+                if f.dirs.len() >= 2 {
+                    let i = r.below(f.dirs.len() - 1);
+                    f.dirs.swap(i, i + 1);
+                }
+            });
+            "mut:transpose-directives"
+        }
+        3 | 4 => {
+            let mut r = rng.fork();
+            pick_field(rng, doc, &mut |f| {
+                let x = random_directive(&mut r);
+                let i = r.below(f.dirs.len() + 1);
+                f.dirs.insert(i, x);
+            });
+            "mut:insert-directive"
+        }
+        5 => {
+            let mut r = rng.fork();
+            pick_field(rng, doc, &mut |f| {
+                f.dirs.push(d("transform", vec![("op", s("count"))]));
+                if r.chance(1, 2) {
+                    f.dirs.push(d("output", vec![]));
+                }
+            });
+            "mut:append-transform"
+        }
+        6 => {
+            let mut r = rng.fork();
+            pick_field(rng, doc, &mut |f| {
+                f.dirs = vec![d("fold", vec![]), d("transform", vec![("op", s("count"))]), d("transform", vec![("op", s("count"))])];
+                if r.chance(1, 2) {
+                    f.dirs.push(d("output", vec![]));
+                }
+            });
+            "mut:fold-transform-transform"
+        }
+        7 | 8 => {
+            // wrong argument kind in some directive
+            let mut r = rng.fork();
+            pick_field(rng, doc, &mut |f| {
+                if let Some(dd) = f.dirs.iter_mut().find(|x| !x.args.is_empty()) {
+                    let i = r.below(dd.args.len());
+                    dd.args[i].value = if r.chance(1, 2) { weird_values(&mut r) } else { weird_strings(&mut r) };
+                }
+            });
+            "mut:wrong-arg-kind"
+        }
+        9 => {
+            let mut r = rng.fork();
+            pick_field(rng, doc, &mut |f| {
+                if let Some(dd) = f.dirs.iter_mut().find(|x| !x.args.is_empty()) {
+                    let i = r.below(dd.args.len());
+                    dd.args.remove(i);
+                }
+            });
+            "mut:missing-arg"
+        }
+        10 => {
+            let mut r = rng.fork();
+            pick_field(rng, doc, &mut |f| {
+                if !f.dirs.is_empty() {
+                    let i = r.below(f.dirs.len());
+                    let nm = *r.pick(&["extra", "name", "op", "value", "depth"]);
+                    let v = weird_values(&mut r);
+                    let at = r.below(f.dirs[i].args.len() + 1);
+                    f.dirs[i].args.insert(at, Arg { name: nm.into(), value: v });
+                }
+            });
+            "mut:extra-arg"
+        }
+        11 => {
+            // filter operand list shapes
+            let mut r = rng.fork();
+            pick_field(rng, doc, &mut |f| {
+                let shapes = [
+                    GVal::List(vec![]),
+                    GVal::List(vec![GVal::Int(1)]),
+                    s("$x"),
+                    GVal::List(vec![s("$x"), s("$y")]),
+                    GVal::List(vec![weird_strings(&mut r)]),
+                    GVal::Null,
+                ];
+                let v = r.pick(&shapes).clone();
+                let op = if r.chance(1, 3) { weird_strings(&mut r) } else { s(*r.pick(CMP_OPS)) };
+                f.dirs.push(Dir { name: "filter".into(), args: vec![Arg { name: "op".into(), value: op }, Arg { name: "value".into(), value: v }] });
+            });
+            "mut:filter-shapes"
+        }
+        12 => {
+            let mut r = rng.fork();
+            pick_field(rng, doc, &mut |f| {
+                f.dirs.push(d("recurse", vec![("depth", weird_values(&mut r))]));
+            });
+            "mut:recurse-depth"
+        }
+        13 => {
+            // directive on the root field
+            if let Some(ss) = root_sels(doc) {
+                if let Some(Sel::Field(f)) = ss.first_mut() {
+                    f.dirs.push(random_directive(rng));
+                }
+            }
+            "mut:root-directive"
+        }
+        14 => {
+            if let Some(o) = first_op(doc) {
+                o.dirs.push(random_directive(rng));
+            }
+            "mut:operation-directive"
+        }
+        15 => {
+            if let Some(o) = first_op(doc) {
+                o.nvars = 1 + rng.below(2);
+            }
+            "mut:variable-definitions"
+        }
+        16 => {
+            if let Some(o) = first_op(doc) {
+                o.kind = if rng.chance(1, 2) { 'm' } else { 's' };
+            }
+            "mut:not-a-query"
+        }
+        17 | 18 => {
+            // 1 / 2 / 3 named operations
+            let n = 1 + rng.below(3);
+            if let Ops::Single(o) = &doc.ops {
+                let o = o.clone();
+                doc.ops = Ops::Multi((0..n).map(|i| (format!("Q{i}"), o.clone())).collect());
+            }
+            match n {
+                1 => "mut:ops-1",
+                2 => "mut:ops-2",
+                _ => "mut:ops-3",
+            }
+        }
+        19 => {
+            // fragment defined (unused)
+            doc.frags.push(Frag {
+                name: "Fr".into(),
+                tc: "Number".into(),
+                dirs: if rng.chance(1, 3) { vec![random_directive(rng)] } else { vec![] },
+                sels: vec![Sel::Field(FieldSel { alias: None, name: "value".into(), args: vec![], dirs: vec![d("output", vec![])], sels: vec![] })],
+            });
+            "mut:fragment-unused"
+        }
+        20 => {
+            // fragment spread (with or without the definition)
+            let with_def = rng.chance(1, 2);
+            let dirs = if rng.chance(1, 2) { vec![random_directive(rng)] } else { vec![] };
+            pick_field(rng, doc, &mut |f| {
+                f.sels.push(Sel::Spread { name: "Fr".into(), dirs: dirs.clone() });
+            });
+            if with_def {
+                doc.frags.push(Frag {
+                    name: "Fr".into(),
+                    tc: "Number".into(),
+                    dirs: vec![],
+                    sels: vec![Sel::Field(FieldSel { alias: None, name: "value".into(), args: vec![], dirs: vec![d("output", vec![])], sels: vec![] })],
+                });
+            }
+            "mut:fragment-spread"
+        }
+        21 => {
+            // spread as the root selection
+            if let Some(ss) = root_sels(doc) {
+                *ss = vec![Sel::Spread { name: "Fr".into(), dirs: vec![] }];
+            }
+            "mut:root-spread"
+        }
+        22 => {
+            // inline fragment as the root selection / around the root
+            if let Some(ss) = root_sels(doc) {
+                let inner = std::mem::take(ss);
+                *ss = vec![Sel::Inline { tc: Some("RootSchemaQuery".into()), dirs: vec![], sels: inner }];
+            }
+            "mut:root-inline"
+        }
+        23 => {
+            // second root field
+            if let Some(ss) = root_sels(doc) {
+                if let Some(x) = ss.first().cloned() {
+                    ss.push(x);
+                }
+            }
+            "mut:two-roots"
+        }
+        24 => {
+            // inline fragment with a sibling / nested inline / no type condition, with directives
+            let mut r = rng.fork();
+            pick_field(rng, doc, &mut |f| {
+                let inner = vec![Sel::Field(FieldSel { alias: None, name: "value".into(), args: vec![], dirs: vec![d("output", vec![("name", s("inl"))])], sels: vec![] })];
+                let dirs = if r.chance(1, 2) { vec![random_directive(&mut r)] } else { vec![] };
+                match r.below(4) {
+                    0 => f.sels.push(Sel::Inline { tc: Some("Prime".into()), dirs, sels: inner }),
+                    1 => f.sels = vec![Sel::Inline { tc: None, dirs, sels: inner }],
+                    2 => f.sels = vec![Sel::Inline { tc: Some("Prime".into()), dirs: vec![], sels: vec![Sel::Inline { tc: Some("Prime".into()), dirs, sels: inner }] }],
+                    _ => f.sels = vec![Sel::Inline { tc: Some(r.pick(&["Prime", "Composite", "Nope", "Number", "Int"]).to_string()), dirs, sels: inner }],
+                }
+            });
+            "mut:inline-shapes"
+        }
+        25 => {
+            let mut r = rng.fork();
+            pick_field(rng, doc, &mut |f| {
+                f.alias = Some(r.pick(&["a", "value", "__typename", "count"]).to_string());
+            });
+            "mut:alias"
+        }
+        26 => {
+            if let Some(ss) = root_sels(doc) {
+                if let Some(Sel::Field(f)) = ss.first_mut() {
+                    f.alias = Some("rootalias".into());
+                }
+            }
+            "mut:root-alias"
+        }
+        27 => {
+            // edge / root argument shapes
+            let mut r = rng.fork();
+            pick_field(rng, doc, &mut |f| {
+                let nm = *r.pick(&["max", "min", "extra"]);
+                let v = weird_values(&mut r);
+                if r.chance(1, 2) {
+                    f.args.retain(|a| a.name != nm);
+                }
+                f.args.push(Arg { name: nm.into(), value: v });
+            });
+            "mut:field-args"
+        }
+        28 => {
+            let mut r = rng.fork();
+            pick_field(rng, doc, &mut |f| {
+                f.name = r.pick(&["__typename", "nope", "value", "successor", "Number", "Zero"]).to_string();
+            });
+            "mut:rename-field"
+        }
+        29 => {
+            if let Some(ss) = root_sels(doc) {
+                if let Some(Sel::Field(f)) = ss.first_mut() {
+                    f.name = rng.pick(&["__typename", "Nope", "Two", "Four"]).to_string();
+                    if rng.chance(1, 2) {
+                        f.sels.clear();
+                        f.args.clear();
+                    }
+                }
+            }
+            "mut:rename-root"
+        }
+        30 => {
+            // selections under a property / dropped under an edge
+            let mut r = rng.fork();
+            pick_field(rng, doc, &mut |f| {
+                if f.sels.is_empty() {
+                    f.sels.push(Sel::Field(FieldSel {
+                        alias: None,
+                        name: r.pick(&["__typename", "value", "nope"]).to_string(),
+                        args: vec![],
+                        dirs: vec![],
+                        sels: vec![],
+                    }));
+                } else {
+                    f.sels.clear();
+                }
+            });
+            "mut:toggle-selections"
+        }
+        31 => {
+            // duplicate an output name
+            let mut r = rng.fork();
+            pick_field(rng, doc, &mut |f| {
+                let nm = r.pick(&["dup", "o1", "c1"]).to_string();
+                f.dirs.push(d("output", vec![("name", s(&nm))]));
+            });
+            "mut:output-name-clash"
+        }
+        32 => {
+            // structures no text can produce
+            match rng.below(3) {
+                0 => doc.ops = Ops::Multi(vec![]),
+                1 => {
+                    if let Some(o) = first_op(doc) {
+                        o.sels.clear();
+                    }
+                }
+                _ => {
+                    let mut r = rng.fork();
+                    pick_field(rng, doc, &mut |f| {
+                        f.sels = vec![Sel::Inline { tc: Some(r.pick(&["Prime", "Nope"]).to_string()), dirs: vec![], sels: vec![] }];
+                    });
+                }
+            }
+            "mut:non-text-structure"
+        }
+        _ => {
+            // coercion under a property
+            let mut r = rng.fork();
+            pick_field(rng, doc, &mut |f| {
+                if f.sels.is_empty() {
+                    f.sels = vec![Sel::Inline {
+                        tc: Some(r.pick(&["Prime", "Int", "Nope"]).to_string()),
+                        dirs: vec![],
+                        sels: vec![Sel::Field(FieldSel { alias: None, name: "__typename".into(), args: vec![], dirs: vec![], sels: vec![] })],
+                    }];
+                }
+            });
+            "mut:coerce-property"
+        }
+    }
+}
+
+// ---- byte-level stream
+
+fn edit_text(rng: &mut Rng, text: &str) -> String {
+    let mut cs: Vec<char> = text.chars().collect();
+    let alphabet: Vec<char> = "{}()[]@:$%!\"\\.,#-+0123456789eE_ \n\tabAZnullfragmentonqueryé\u{feff}\u{0}".chars().collect();
+    let n = 1 + rng.below(4);
+    for _ in 0..n {
+        let pos = if cs.is_empty() { 0 } else { rng.below(cs.len() + 1) };
+        match rng.below(4) {
+            0 => cs.insert(pos.min(cs.len()), *rng.pick(&alphabet)),
+            1 => {
+                if pos < cs.len() {
+                    cs.remove(pos);
+                }
+            }
+            2 => {
+                if pos < cs.len() {
+                    cs[pos] = *rng.pick(&alphabet);
+                }
+            }
+            _ => {
+                // duplicate or delete a span
+                if cs.len() > 2 {
+                    let a = rng.below(cs.len());
+                    let b = (a + 1 + rng.below(12)).min(cs.len());
+                    if rng.chance(1, 2) {
+                        let span: Vec<char> = cs[a..b].to_vec();
+                        for (i, c) in span.into_iter().enumerate() {
+                            cs.insert(b + i, c);
+                        }
+                    } else {
+                        cs.drain(a..b);
+                    }
+                }
+            }
+        }
+    }
+    cs.into_iter().collect()
+}
+
+// ------------------------------------------------------------------------------------------------
+// running the implementation
+
+fn parse_err_name(e: &ParseError) -> String {
+    let dbg = format!("{e:?}");
+    dbg.split(|c: char| !(c.is_ascii_alphanumeric() || c == '_')).next().unwrap_or("").to_string()
+}
+
+/// outcome class of `parse_document` on the directly constructed AST
+fn parse_layer_answer(doc: &Doc) -> String {
+    let ast = doc_to_ast(doc);
+    match trustfall_core::graphql_query::parse_document(&ast) {
+        Ok(_) => "ok".to_string(),
+        Err(e) => format!("(err {})", parse_err_name(&e)),
+    }
+}
+
+fn frontend_class(r: &Result<(), FrontendError>) -> String {
+    fn names(e: &FrontendError, out: &mut Vec<String>) {
+        match e {
+            FrontendError::MultipleErrors(v) => v.0.iter().for_each(|x| names(x, out)),
+            FrontendError::ParseError(p) => out.push(format!("parse:{}", parse_err_name(p))),
+            FrontendError::FilterTypeError(f) => {
+                let dbg = format!("{f:?}");
+                out.push(dbg.split('(').next().unwrap_or("").to_string())
+            }
+            FrontendError::ValidationError(v) => {
+                let dbg = format!("{v:?}");
+                out.push(dbg.split('(').next().unwrap_or("").to_string())
+            }
+            other => {
+                let dbg = format!("{other:?}");
+                out.push(dbg.split(|c: char| !(c.is_ascii_alphanumeric() || c == '_')).next().unwrap_or("").to_string())
+            }
+        }
+    }
+    match r {
+        Ok(()) => "ok".to_string(),
+        Err(e) => {
+            let mut v = vec![];
+            names(e, &mut v);
+            format!("(err {})", v.join(" "))
+        }
+    }
+}
+
+/// `frontend::parse` on text (text parser + parse layer + frontend + IndexedQuery conversion)
+fn run_text(schema: &Schema, text: &str) -> Result<String, String> {
+    guarded(|| frontend_class(&trustfall_core::frontend::parse(schema, text).map(|_| ())))
+}
+
+/// the same pipeline minus the text parser, on a directly constructed AST
+fn run_ast(schema: &Schema, doc: &Doc) -> Result<String, String> {
+    let ast = doc_to_ast(doc);
+    guarded(|| {
+        let r = trustfall_core::frontend::parse_doc(schema, &ast).map(|ir| {
+            // what `frontend::parse` does next (mod.rs:51)
+            let _indexed: trustfall_core::ir::IndexedQuery = ir.try_into().unwrap();
+        });
+        frontend_class(&r)
+    })
+}
+
+pub struct C10;
+
+fn histogram_doc_tags(doc: &Doc, tags: &mut Vec<String>) {
+    match &doc.ops {
+        Ops::Single(_) => tags.push("ops:single".into()),
+        Ops::Multi(m) => tags.push(format!("ops:multi{}", m.len().min(4))),
+    }
+    if !doc.frags.is_empty() {
+        tags.push("has-fragments".into());
+    }
+}
+
+impl Prop for C10 {
+    fn id(&self) -> &'static str {
+        "C10"
+    }
+    fn rule(&self) -> &'static str {
+        "Three streams. (valid) type-directed queries over the repo's `numbers` schema (root fields with parameters, properties incl. __typename, every edge, aliases, `... on` coercions, @optional/@recurse/@fold/@fold @transform(count) with @output/@filter/@tag, filters with variables and previously defined tags). (mut) one to three random mutations of such a query: drop/duplicate/transpose/insert a directive, wrong argument kinds, missing/extra/duplicated arguments, @transform chains, directives on the root field / operation / fragment spreads / inline fragments, 1/2/3 named operations, fragments defined/used/unused, variable definitions, mutation/subscription, aliases everywhere, numeric edge cases of `depth`, filter operand shapes, renamed fields incl. __typename, coercion under a property, and structures that no text can produce (empty operation map, empty selection set). Each abstract document is sent to the model as an s-expression and to the implementation as a directly constructed ExecutableDocument: `(parse-doc d)` compares the outcome class of graphql_query::query::parse_document (ok / error variant / panic). A case is non-trivial (`nt:`) when its answer is not plain `ok`, i.e. an error path or a panic of the parse layer is exercised, or when it is `ok` with at least one @fold/@transform/@recurse/@optional/coercion. (bytes) rendered valid query text with 1-4 random character edits, `(text-nopanic hex)`: exploration of the unmodelled text parser, both sides answer the constant `nopanic`. ORACLE (all streams): frontend::parse on the rendered text and frontend::parse_doc + IndexedQuery conversion on the constructed AST must not panic for any document a text could produce; when a document renders to text, async_graphql_parser::parse_query of that text must give exactly the constructed AST (self-check that the abstract document is what the parser produces) and the same parse-layer outcome."
+    }
+    fn generate(&self, tier: Tier, rng: &mut Rng) -> Vec<Case> {
+        let si = SchemaInfo::load("numbers");
+        let (n_valid, n_mut, n_bytes) = if tier == Tier::Quick { (1500, 6000, 3000) } else { (15000, 80000, 40000) };
+        let mut out = vec![];
+        for _ in 0..n_valid {
+            let doc = gen_valid(rng, &si);
+            let mut tags = vec!["stream:valid".to_string()];
+            histogram_doc_tags(&doc, &mut tags);
+            out.push(Case { request: Sexp::call("parse-doc", vec![doc_to_sexp(&doc)]), tags });
+        }
+        for _ in 0..n_mut {
+            let mut doc = gen_valid(rng, &si);
+            let k = 1 + rng.below(3);
+            let mut tags = vec!["stream:mut".to_string()];
+            for _ in 0..k {
+                tags.push(mutate(rng, &mut doc).to_string());
+            }
+            histogram_doc_tags(&doc, &mut tags);
+            out.push(Case { request: Sexp::call("parse-doc", vec![doc_to_sexp(&doc)]), tags });
+        }
+        for _ in 0..n_bytes {
+            let doc = gen_valid(rng, &si);
+            let text = render_doc(&doc).expect("valid documents render");
+            let edited = edit_text(rng, &text);
+            out.push(Case::new(Sexp::call("text-nopanic", vec![Sexp::atom(hex(edited.as_bytes()))]), &["stream:bytes"]));
+        }
+        out
+    }
+    fn eval(&self, request: &Sexp) -> Option<String> {
+        let (h, args) = request.as_call()?;
+        match (h, args) {
+            ("parse-doc", [dx]) => {
+                let doc = sexp_to_doc(dx)?;
+                Some(parse_layer_answer(&doc))
+            }
+            ("text-nopanic", [x]) => {
+                let _ = String::from_utf8(unhex(x.as_atom()?)?).ok()?;
+                // panics of this stream are reported by the oracle, not by the correspondence
+                Some("nopanic".to_string())
+            }
+            _ => None,
+        }
+    }
+    fn post_tags(&self, e: &Evaluated) -> Vec<String> {
+        let mut t = vec![];
+        if let Some(("parse-doc", [dx])) = e.request.as_call() {
+            t.push(format!("parse:{}", e.answer.trim_start_matches("(err ").trim_end_matches(')')));
+            if e.answer != "ok" {
+                t.push("nt:parse-error-or-panic".into());
+            } else {
+                let line = &e.line;
+                // @fold / @transform / @recurse / @optional / inline fragment present
+                let marks = [hex(b"fold"), hex(b"transform"), hex(b"recurse"), hex(b"optional")];
+                if marks.iter().any(|m| line.contains(&format!("(d {m} "))) || line.contains("(in ") {
+                    t.push("nt:ok-with-edge-directives".into());
+                }
+            }
+            if let Some(doc) = sexp_to_doc(dx) {
+                if !producible(&doc) {
+                    t.push("non-producible".into());
+                } else if render_doc(&doc).is_some() {
+                    t.push("renders".into());
+                }
+            }
+        }
+        t
+    }
+    fn oracle(&self, evaluated: &[Evaluated]) -> Vec<OracleFailure> {
+        let schema = schema("numbers").unwrap();
+        let mut fails = vec![];
+        fn mk(info: &str, stage: &str, e: &Evaluated, text: Option<&str>) -> OracleFailure {
+            OracleFailure {
+                key: panic_key(info),
+                detail: format!("stage={stage} {info}{}", text.map(|t| format!(" text={t}")).unwrap_or_default()),
+                requests: vec![e.line.clone()],
+            }
+        }
+        for e in evaluated {
+            let Some((h, args)) = e.request.as_call() else { continue };
+            match (h, args) {
+                ("parse-doc", [dx]) => {
+                    let Some(doc) = sexp_to_doc(dx) else { continue };
+                    if !producible(&doc) {
+                        continue; // no query text yields this structure: outside the property
+                    }
+                    if let Some(info) = &e.panic_info {
+                        fails.push(mk(info, "parse_document(ast)", e, None));
+                    }
+                    if let Err(info) = run_ast(schema, &doc) {
+                        if e.panic_info.is_none() {
+                            fails.push(mk(&info, "frontend(ast)", e, None));
+                        }
+                    }
+                    if let Some(text) = render_doc(&doc) {
+                        // self-check: the text parser yields exactly the constructed AST
+                        match guarded(|| async_graphql_parser::parse_query(&text)) {
+                            Ok(Ok(parsed)) => {
+                                if normalized_debug(&parsed) != normalized_debug(&doc_to_ast(&doc)) {
+                                    fails.push(OracleFailure {
+                                        key: "harness:text-ast-mismatch".into(),
+                                        detail: format!("text={text}"),
+                                        requests: vec![e.line.clone()],
+                                    });
+                                }
+                            }
+                            Ok(Err(err)) => fails.push(OracleFailure {
+                                key: "harness:rendered-text-rejected".into(),
+                                detail: format!("{err:?} text={text}"),
+                                requests: vec![e.line.clone()],
+                            }),
+                            Err(info) => fails.push(mk(&info, "parse_query(text)", e, Some(&text))),
+                        }
+                        if let Err(info) = run_text(schema, &text) {
+                            if e.panic_info.is_none() {
+                                fails.push(mk(&info, "frontend(text)", e, Some(&text)));
+                            }
+                        }
+                    }
+                }
+                ("text-nopanic", [x]) => {
+                    let Some(text) = x.as_atom().and_then(unhex).and_then(|b| String::from_utf8(b).ok()) else { continue };
+                    if let Err(info) = run_text(schema, &text) {
+                        fails.push(mk(&info, "frontend(text)", e, Some(&text)));
+                    }
+                }
+                _ => {}
+            }
+        }
+        fails
+    }
+    fn extra_stats(&self, evaluated: &[Evaluated]) -> serde_json::Value {
+        let schema = schema("numbers").unwrap();
+        let mut classes: BTreeMap<String, u64> = BTreeMap::new();
+        let mut text_ok = 0u64;
+        let mut text_total = 0u64;
+        for e in evaluated {
+            match e.request.as_call() {
+                Some(("parse-doc", [dx])) => {
+                    if let Some(doc) = sexp_to_doc(dx) {
+                        let c = match run_ast(schema, &doc) {
+                            Ok(c) => c,
+                            Err(_) => "panic".to_string(),
+                        };
+                        *classes.entry(c).or_default() += 1;
+                    }
+                }
+                Some(("text-nopanic", [x])) => {
+                    text_total += 1;
+                    if let Some(text) = x.as_atom().and_then(unhex).and_then(|b| String::from_utf8(b).ok()) {
+                        if async_graphql_parser::parse_query(&text).is_ok() {
+                            text_ok += 1;
+                        }
+                    }
+                }
+                _ => {}
+            }
+        }
+        let mut top: Vec<(String, u64)> = classes.into_iter().collect();
+        top.sort_by(|a, b| b.1.cmp(&a.1));
+        let frontend_classes: BTreeMap<String, u64> = top.into_iter().take(40).collect();
+        serde_json::json!({
+            "frontend_outcome_classes_top40": frontend_classes,
+            "byte_stream_texts": text_total,
+            "byte_stream_texts_accepted_by_text_parser": text_ok,
+        })
+    }
+}
 
 fn main() {
     let args: Vec<String> = std::env::args().collect();
     if args.len() >= 3 && args[1] == "probe" {
+        // developer aid: `frontend probe <schema.graphql> < queries` prints the outcome per line
         install_quiet_panic_hook();
         let sdl = std::fs::read_to_string(&args[2]).unwrap();
         let schema = Schema::parse(sdl).unwrap();
@@ -14,14 +1781,12 @@ fn main() {
             if line.trim().is_empty() {
                 continue;
             }
-            let r = guarded(|| match trustfall_core::frontend::parse(&schema, &line) {
-                Ok(_) => "ok".to_string(),
-                Err(e) => format!("err {:?}", e).chars().take(200).collect(),
-            });
-            match r {
+            match run_text(&schema, &line) {
                 Ok(s) => println!("{line}\n   => {s}"),
                 Err(p) => println!("{line}\n   => PANIC {p}"),
             }
         }
+        return;
     }
+    main_for(vec![Box::new(C10)]);
 }
